@@ -185,6 +185,20 @@ def enum_members(cls):
     return [(n, cls._name2value[n]) for n in dir(cls) if n in cls._name2value]
 
 
+def raw_tok(v):
+    """raw value of an enum member: decimal int (what the model covers) or s<hex> for a str value
+    (monitor-only stream: never sent to the Lean driver)"""
+    if type(v) is int:
+        return str(v)
+    if type(v) is str:
+        return "s" + hx(v)
+    raise NotEncodable("enum value %r" % (v,))
+
+
+def raw_untok(t):
+    return unhx(t[1:]) if t[0] == "s" else int(t)
+
+
 def table_lines(fam):
     lines = []
     for kind, name in fam.order:
@@ -192,7 +206,7 @@ def table_lines(fam):
             ms = enum_members(fam.enums[name])
             toks = ["enum", hx(name), str(len(ms))]
             for n, v in ms:
-                toks += [hx(n), str(v)]
+                toks += [hx(n), raw_tok(v)]
             lines.append(" ".join(toks))
         else:
             cls = fam.classes[name]
@@ -236,9 +250,7 @@ def enc_val(fam, v, canon):
     iteration order (input form: the model's set is the element list in iteration order)"""
     S = fam.S
     if isinstance(v, S.SerializableEnum):
-        if type(v.value) is not int:
-            raise NotEncodable("enum value %r" % (v.value,))
-        return ["E%s:%d" % (hx(type(v).__name__), v.value)]
+        return ["E%s:%s" % (hx(type(v).__name__), raw_tok(v.value))]
     if isinstance(v, S.Serializable):
         out = ["O" + hx(type(v).__name__), str(len(v._fields))]
         for f in v._fields:
@@ -328,7 +340,7 @@ def dec_val(fam, toks, i):
         h, d = t[1:].split(":")
         if unhx(h) not in fam.enums:
             raise MissingTable(t)
-        return fam.enums[unhx(h)](int(d)), i + 1
+        return fam.enums[unhx(h)](raw_untok(d)), i + 1
     return dec_atom(t), i + 1
 
 
@@ -380,7 +392,7 @@ def has_bty(fam, v, bt):
         return type(v) is bool
     if k == "e":
         E = fam.enums[bt[1]]
-        return type(v) is E and type(v.value) is int and v.value in E._value2name
+        return type(v) is E and v.value in E._value2name
     C = fam.classes[bt[1]]
     if type(v) is not C:
         return False
@@ -598,6 +610,11 @@ def spoil(rng, fam, cname, inst):
     f, ty = rng.choice(fields)
     k = ty[0]
     cur = getattr(inst, f)
+    elts = ty[1] if k == "T" else [ty[1]] if k in "LZ" else []
+    if k in "LZT" and rng.random() < 0.12 and all(b[0] != "f" for b in elts):   # float(str) is not modelled
+        # a str is Iterable / indexable: silently taken apart into characters
+        setattr(inst, f, rng.choice(["", "a", "ab", "x7yz", "é1", "AB", "RED", "10"]))
+        return
     if k == "T":
         r = rng.random()
         if r < 0.35:
@@ -758,7 +775,8 @@ def gen_jobj(rng, fam, cname, depth=0, noise=0.0):
     return d
 
 
-def gen_family(rng, S, bad_enum=False):
+def gen_family(rng, S, bad_enum=False, str_enums=False):
+    """str_enums: some enums get str raw values (outside the model: monitor-only stream)"""
     fam = Family(S)
     for _ in range(rng.choice([1, 1, 2])):
         names = rng.sample(MEMBER_NAMES, rng.randint(1, 4))
@@ -770,6 +788,8 @@ def gen_family(rng, S, bad_enum=False):
                     names.append(low.upper())   # 'red' and 'RED' together: fromJson picks the wrong member
         members = {}
         pool = rng.sample([0, 1, 2, 3, 5, -1, 10, 255, 2 ** 40, -7], len(names))
+        if str_enums and rng.random() < 0.5:
+            pool = rng.sample(["red", "GREEN", "a b", "é", "", "1", "None", "x" * 40, "left", "\n"], len(names))
         for i, n in enumerate(names):
             members[n] = pool[i] if rng.random() < 0.85 else pool[0]   # sometimes an alias
         make_enum(fam, fresh("E"), members)
@@ -871,7 +891,7 @@ def _rebuild(fam, S, case):
         if w[0] == "enum":
             name = unhx(w[1])
             n = int(w[2])
-            members = {unhx(w[3 + 2 * i]): int(w[4 + 2 * i]) for i in range(n)}
+            members = {unhx(w[3 + 2 * i]): raw_untok(w[4 + 2 * i]) for i in range(n)}
             make_enum(fam, name, members)
         elif w[0] == "class":
             name = unhx(w[1])
@@ -1160,7 +1180,9 @@ def run(ctx):
     # monitor-only stream: many more well-typed instances (no model involved)
     if not ctx.failures:
         for i in range(ctx.scale(600, 12000)):
-            fam = gen_family(ctx.rng, S, False)
+            fam = gen_family(ctx.rng, S, False, str_enums=True)
+            if any(type(v) is str for E in fam.enums.values() for v in E._value2name):
+                ctx.count("monitor-only:family-with-str-valued-enum")
             try:
                 lines = ["case x%d" % i] + table_lines(fam)
                 for _ in range(6):
